@@ -170,6 +170,9 @@ func (p *parser) checkReferences(lookup objLookup, isRaw bool) error {
 			cmdList := m[name]
 			check := func(c *cmd) error {
 				for i, name := range c.ref {
+					if i >= len(c.typ.ref) {
+						return fmt.Errorf("Too many references in '%s'", c.orig)
+					}
 					prefix := c.typ.ref[i]
 					if _, found := lookup[prefix][name]; !found {
 						if vl := defaultObjects[[2]string{prefix, name}]; vl != nil {
@@ -922,7 +925,9 @@ func postprocessACLParts(c *cmd, parts []string, wildcard bool) {
 		parts = parts[min(n, len(parts)):]
 	}
 	convObjectGroup := func() {
-		if len(parts) < 2 {
+		// Object-groups of IOS are not managed by Netspoc.
+		// Leave "object-group NAME" unchanged, it is compared textually.
+		if wildcard || len(parts) < 2 {
 			skip(2)
 			return
 		}
